@@ -151,6 +151,15 @@ Theorem C15_source_entry_reader : forall d,
   end.
 Proof. exact ReaderProgFacts.entry_prog_correct. Qed.
 Print Assumptions C15_source_entry_reader.
+(* get_args as translated (a fresh DataStream over the entry data, `for i in range(MAX_ARGS)`: four bytes left -> append the
+   word, else break): the collected words are the model's get_words, for every entry data *)
+Theorem C15_source_args : forall data,
+  match StreamProg.run Gen.Readers.prog_trace_args (StreamProg.init data) with
+  | StreamProg.RFall s => ReaderProgFacts.args_of s = get_words MAX_ARGS data
+  | _ => False
+  end.
+Proof. exact ReaderProgFacts.args_prog_correct. Qed.
+Print Assumptions C15_source_args.
 Theorem C15_source_streams : Gen.Readers.ok_readers = true /\ Gen.Readers.streams_big_unsigned = true.
 Proof. split; reflexivity. Qed.
 Print Assumptions C15_source_streams.
